@@ -496,6 +496,52 @@ def run(ctx):
                 f = 'exception-%s: %s (matrix of shape %s)' % (c['op'], type(ex).__name__ + ':' + str(ex)[:100], shp)
             if f:
                 ctx.report(c, 'failure', f)
+    # every factorization of polynomials with whole orders exactly zero (A0 + t^2 A2 + t^3 A3; A0 + t A1 + t^3 A3; odd orders zero;
+    # affine A0 + t A1 carried to D = 4), in one direction only or in all: on every run
+    for kind in ('qr', 'qr-tall', 'qr-wide', 'qr_full', 'cholesky', 'lu', 'lu2', 'lu_factor', 'eigh', 'svd'):
+        for pat in ('order1-zero', 'order2-zero', 'odd-orders-zero', 'affine'):
+            for where in ('all', 'first'):
+                D_, P_ = 4, 2
+                if kind in ('qr', 'qr_full'):
+                    x_ = ops.gen_tall(rng, D_, P_, 3, 3)
+                elif kind == 'qr-tall':
+                    x_ = ops.gen_tall(rng, D_, P_, 4, 2)
+                elif kind == 'qr-wide':
+                    x_ = np.concatenate([ops.gen_tall(rng, D_, P_, 2, 2), rand_coeffs(rng, (D_, P_, 2, 2), -1, 1)], axis=3)
+                elif kind == 'cholesky':
+                    x_ = ops.gen_square(rng, D_, P_, 3, 'spd')
+                elif kind == 'eigh':
+                    x_ = ops.gen_square(rng, D_, P_, 3, 'sym')
+                elif kind == 'svd':
+                    x_ = None
+                    for _ in range(400):
+                        c_ = make_case(rng, ctx.tier)
+                        if c_['op'] == 'svd' and c_['P'] == 2 and c_['D'] == 4 and 'rankdef_dir' not in c_:
+                            x_ = np.array(c_['x'])
+                            break
+                    if x_ is None:
+                        continue
+                else:
+                    x_ = ops.gen_square(rng, D_, P_, 3, 'general')
+                x_ = np.array(x_)
+                sl = slice(None) if where == 'all' else slice(0, 1)
+                if pat == 'order1-zero':
+                    x_[1, sl] = 0
+                elif pat == 'order2-zero':
+                    x_[2, sl] = 0
+                elif pat == 'odd-orders-zero':
+                    x_[1::2, sl] = 0
+                else:
+                    x_[2:, sl] = 0
+                c = {'op': kind.split('-')[0], 'D': D_, 'P': P_, 'x': x_}
+                ctx.evaluations += 1
+                ctx.count('sparse-orders=' + kind)
+                try:
+                    f = check(c)
+                except Exception as ex:
+                    f = 'exception-%s: %s (polynomial with vanishing orders: %s)' % (c['op'], type(ex).__name__ + ':' + str(ex)[:100], pat)
+                if f:
+                    ctx.report(c, 'failure', f)
     for i in range(300 if ctx.tier == 'quick' else 4000):
         c = make_case(rng, ctx.tier)
         ctx.evaluations += 1
